@@ -14,7 +14,8 @@
 (*   yielded[g]  items the prefetch thread has obtained from generator g    *)
 (*   delivered[g] items already handed to clients in next-batch responses   *)
 (*   ended[g]    "run" | "done" | "fail" | "stop"  how generator g ended    *)
-(*   marker[g]   an end marker for g has been sent                          *)
+(*   marker[g]   the requesters an end marker for g has been sent to        *)
+(*               (each client reading g sees exactly one)                   *)
 (*   cur         generator currently installed in the server (0 = none)     *)
 (*   req[r]      open requests                                              *)
 (*                                                                         *)
@@ -81,7 +82,7 @@ Install(r, len, fail) ==
   /\ cur # 0 => ended[cur] # "run"
   /\ gens' = Append(gens, [len |-> len, fail |-> fail])
   /\ yielded' = Append(yielded, 0) /\ delivered' = Append(delivered, 0)
-  /\ ended' = Append(ended, "run") /\ marker' = Append(marker, FALSE)
+  /\ ended' = Append(ended, "run") /\ marker' = Append(marker, {})
   /\ threadAlive' = Append(threadAlive, TRUE)
   /\ cur' = Len(gens) + 1
   /\ req' = [req EXCEPT ![r].g = Len(gens) + 1]
@@ -98,7 +99,7 @@ InitRet(r, ok) ==
 \* unexhausted generator is stopped
 Stop(g) ==
   /\ g \in G /\ g = cur
-  /\ ended[g] = "run" \/ (ended[g] \in {"done", "fail"} /\ ~marker[g])
+  /\ ended[g] = "run" \/ (ended[g] \in {"done", "fail"} /\ marker[g] = {})
   /\ ended' = [ended EXCEPT ![g] = "stop"]          \* whatever was not delivered yet is replaced by a retriable error
   /\ UNCHANGED <<gens, yielded, delivered, marker, threadAlive, cur, req, shutdown, lastRet, mine>>
 
@@ -125,11 +126,11 @@ NextRet(r, n, mk) ==
              THEN /\ n = req[r].k                                    \* a full batch, or ...
                   /\ UNCHANGED marker
              ELSE /\ ended[g] # "run"
-                  /\ CASE mk = "stop"    -> ended[g] = "done" /\ delivered[g] + n = yielded[g] /\ ~marker[g]
-                       [] mk = "exc"     -> ended[g] = "fail" /\ delivered[g] + n = yielded[g] /\ ~marker[g]
+                  /\ CASE mk = "stop"    -> ended[g] = "done" /\ delivered[g] + n = yielded[g] /\ r \notin marker[g]
+                       [] mk = "exc"     -> ended[g] = "fail" /\ delivered[g] + n = yielded[g] /\ r \notin marker[g]
                        [] mk = "timeout" -> ended[g] = "stop" \/ shutdown
                        [] OTHER -> FALSE
-                  /\ marker' = [marker EXCEPT ![g] = @ \/ mk \in {"stop", "exc"}]
+                  /\ marker' = [marker EXCEPT ![g] = IF mk \in {"stop", "exc"} THEN @ \cup {r} ELSE @]
   /\ req' = [req EXCEPT ![r] = NoReq]
   /\ lastRet' = <<r, n, mk>>
   /\ UNCHANGED <<gens, yielded, ended, threadAlive, cur, shutdown, mine>>
@@ -146,8 +147,8 @@ Spec == Init /\ [][Next]_vars
 \* ---------------------------------------------------------------- what the acceptor guarantees
 Ordered     == \A g \in G : delivered[g] <= yielded[g] /\ yielded[g] <= gens[g].len
 FailPrefix  == \A g \in G : gens[g].fail # 0 => yielded[g] < gens[g].fail
-OneMarker   == \A g \in G : marker[g] => (ended[g] \in {"done", "fail"} /\ delivered[g] = yielded[g])
+OneMarker   == \A g \in G : marker[g] # {} => (ended[g] \in {"done", "fail"} /\ delivered[g] = yielded[g])
 \* a clean end marker is only sent after every element of the generator was delivered
-CompleteOnStop == \A g \in G : (marker[g] /\ ended[g] = "done") => delivered[g] = gens[g].len
+CompleteOnStop == \A g \in G : (marker[g] # {} /\ ended[g] = "done") => delivered[g] = gens[g].len
 AtMostOneRunning == Cardinality({g \in G : threadAlive[g] /\ ended[g] = "run"}) <= 1
 =============================================================================
